@@ -100,6 +100,11 @@ def run(ctx):
     vectors = hc.sample_shapes(hc.gen_vectors(ctx, "res", 1, 1), frac, ctx.seed)
     cases2, pl2 = hc.run_family(ctx, "res", vectors)
     judge_res(ctx, cases2, nontrivial, hc.Explainer(ctx, "res", 1, 1))
+    if not quick:
+        uniq = hc.combine_cases(ctx, hc.gen_vectors(ctx, "req", 1, 1, label="Gen req 1x1 (for pairs)"), 4000, ctx.seed)
+        cases3, pl3 = hc.run_family(ctx, "req", uniq)
+        judge_req(ctx, cases3, nontrivial, hc.Explainer(ctx, "req", 2, 1))
+        ctx.cov["two_attribute_cases"] = len(cases3)
     ctx.cov["distinct_nontrivial"] = len(nontrivial)
     ctx.cov["designs"] = len(pl.designs) + len(pl2.designs)
     ctx.cov["methods_set_aside_uncompilable"] = len(pl.bad_methods) + len(pl2.bad_methods)
